@@ -199,10 +199,13 @@ def trust_part(job, r):
         else:
             raw, _, p7 = build(recs, signer, work, sign_range=rangeb)
         anchors = rng.choice(['good', 'good', 'good', 'other', 'none', 'both'])
-        cons_kind = rng.choice(['email', 'email', 'email+cn', 'all', 'none', 'email-off', 'cn-off', 'extra-oid', 'prefix', 'longer'])
+        cons_kind = rng.choice(['email', 'email', 'email+cn', 'all', 'none', 'email-off', 'cn-off', 'extra-oid', 'prefix', 'longer', 'email-longer', 'cn-longer', 'email-case', 'one-char'])
         cons = {'email': {EMAIL: subj[EMAIL]}, 'email+cn': {EMAIL: subj[EMAIL], CN: subj[CN]}, 'all': dict(subj), 'none': {},
                 'email-off': {EMAIL: 'publication@guardtime.test'}, 'cn-off': {EMAIL: subj[EMAIL], CN: 'pub.exampl'},
-                'extra-oid': {EMAIL: subj[EMAIL], '2.5.4.7': 'Tallinn'}, 'prefix': {EMAIL: subj[EMAIL][:-1]}, 'longer': {ORG: subj[ORG] + ' '}}[cons_kind]
+                'extra-oid': {EMAIL: subj[EMAIL], '2.5.4.7': 'Tallinn'}, 'prefix': {EMAIL: subj[EMAIL][:-1]}, 'longer': {ORG: subj[ORG] + ' '},
+                # configured value is a proper extension of the certificate's value / differs in case / certificate value is a prefix of it
+                'email-longer': {EMAIL: subj[EMAIL] + rng.choice(['x', '.evil', '1'])}, 'cn-longer': {EMAIL: subj[EMAIL], CN: subj[CN] + '.org'},
+                'email-case': {EMAIL: subj[EMAIL].upper()}, 'one-char': {COUNTRY: 'E'}}[cons_kind]
         c('ctx 0')
         files = {'good': [w.ca.pem], 'other': [w.ca2.pem], 'none': [], 'both': [w.ca.pem, w.ca2.pem]}[anchors]
         c('truststore 0 ' + ' '.join(files))
